@@ -19,9 +19,13 @@ def load_corpus():
     return progs, mods, index["shards"]
 
 
-def build_corpus(shards, crates=None):
+def build_corpus(shards, crates=None, segment=False):
     pk = sorted(crates) if crates is not None else [f"corpus{i}" for i in range(shards)]
-    rc, out, d = vlib.cargo_build(pk)
+    if segment:
+        # ascent's segment-codegen feature (C09): a second configuration, built into its own target directory
+        rc, out, d = vlib.cargo_build(pk, features=[f"{c}/segment" for c in pk], target_dir=os.path.join(vlib.BUILD, "target-seg"))
+    else:
+        rc, out, d = vlib.cargo_build(pk)
     return rc, out, d
 
 
@@ -48,6 +52,36 @@ def enumerate_inputs(progs, workdir, tier, workers=8, timeout=1500, seminaive=Fa
         by[name].sort(key=lambda c: json.dumps(c["inputs"], sort_keys=True))
     res.seminaive_checked = cfg != "SemGen.cfg"
     return res, by
+
+
+def eval_least_models(progs, items, workdir, chunks=8, timeout=1200):
+    """items: list of dict(id, pi, inputs). TLC (SemEval) computes the least model of each. Returns ({id: lm}, results)."""
+    if not items:
+        return {}, []
+    os.makedirs(workdir, exist_ok=True)
+    pf = os.path.join(workdir, "progs.json")
+    with open(pf, "w") as f:
+        json.dump(progs, f)
+    chunks = max(1, min(chunks, len(items)))
+    parts = [items[k::chunks] for k in range(chunks)]
+
+    def one(k):
+        cf = os.path.join(workdir, f"evalcases{k}.ndjson")
+        # inputs must not be an empty JSON object (TLC's reader): relations without rows are simply absent, the spec defaults them
+        vlib.write_ndjson(cf, [{"id": it["id"], "pi": it["pi"], "inputs": ({r: v for r, v in it["inputs"].items() if v} or {"__none": []})}
+                               for it in parts[k]])
+        return vlib.run_tlc("SemEval", "SemEval.cfg", env={"PROGS": pf, "CASES": cf}, workers=1, timeout=timeout, tags=("LM",), xss=True, heap="3g")
+
+    lms, results = {}, []
+    with cf.ThreadPoolExecutor(max_workers=chunks) as ex:
+        for k, res in enumerate(ex.map(one, range(chunks))):
+            vlib.tlc_ok(res, "SemEval")
+            results.append(res)
+            for _, rec in res.lines:
+                lms[rec["id"]] = rec["lm"]
+    if len(lms) != len(items):
+        raise ToolError(f"SemEval returned {len(lms)} least models for {len(items)} cases")
+    return lms, results
 
 
 def seminaive_negative_control(workdir):
